@@ -9,7 +9,7 @@ def decode(string):
   return unsafe_decode(string)
 
 def validate_encoded(string):
-  if not re.match("^[ !-~]+$", string):
+  if not re.match(r"^[ !-~]+\Z", string):
     raise gfapy.FormatError(
       "{} is not a valid list of GFA2 identifier\n".format(repr(string))+
       "(it contains non-printable characters)")
@@ -24,7 +24,7 @@ def validate_decoded(obj):
           "the list contains an obj of class {}\n"
           .format(elem.__class__.__name__)+
           "(accepted classes: str, gfapy.Line)")
-      if not re.match("^[!-~]+$", elem):
+      if not re.match(r"^[!-~]+\Z", elem):
         raise gfapy.FormatError(
         "the list contains an invalid GFA2 identifier ({})\n"
         .format(repr(elem))+
